@@ -346,11 +346,18 @@ func reifyGetField(
 	}
 
 	if isNil(value) {
+		// a setting that is missing is reported with the source of the
+		// configuration it is missing from, an explicit null with its own
+		meta := cfg.metadata
+		if value != nil {
+			meta = value.meta()
+		}
+
 		// When fieldType is a pointer and the value is nil, return nil as the
 		// underlying type should not be allocated.
 		if fieldType.Kind() == reflect.Ptr {
 			if err := tryRecursiveValidate(to, opts.opts, opts.validators); err != nil {
-				return raiseValidation(cfg.ctx, cfg.metadata, name, err)
+				return raiseValidation(cfg.ctx, meta, name, err)
 			}
 			return nil
 		}
@@ -358,7 +365,7 @@ func reifyGetField(
 		// Primitive types return early when it doesn't implement the Initializer interface.
 		if fieldType.Kind() != reflect.Struct && !hasInitDefaults(fieldType) {
 			if err := tryRecursiveValidate(to, opts.opts, opts.validators); err != nil {
-				return raiseValidation(cfg.ctx, cfg.metadata, name, err)
+				return raiseValidation(cfg.ctx, meta, name, err)
 			}
 			return nil
 		}
@@ -686,7 +693,10 @@ func castArr(opts *options, v value) ([]value, Error) {
 	if ref, ok := v.(*cfgDynamic); ok {
 		unrefed, err := ref.getValue(opts)
 		if err != nil {
-			return nil, raiseMissingMsg(ref.ctx.getParent(), ref.ctx.field, err.Error())
+			// the failing setting is the reference: its own source, not the
+			// one of the configuration that holds it
+			ctx := ref.Context()
+			return nil, raisePathErr(ErrMissing, ref.meta(), err.Error(), ctx.path("."))
 		}
 
 		if sub, ok := unrefed.(cfgSub); ok {
